@@ -203,6 +203,8 @@ func runOnce(in Sx) Sx {
 		return runDirect(in)
 	case 12:
 		return runParallel(in)
+	case 13:
+		return runOwner(in)
 	case 6:
 		msg := lcg(in.At(6).Uint64(), in.At(7).AsInt())
 		one := func(key, iv []byte) (bool, []byte) {
@@ -423,6 +425,10 @@ func runFamily(in Sx) Sx {
 	key, iv, entries := in.At(1).AsBytes(), in.At(2).AsBytes(), in.At(3)
 	msg := lcg(in.At(4).Uint64(), in.At(5).AsInt())
 	n := entries.Len()
+	// shared: every instance is built from the very same key and IV buffers (one backing
+	// array each), as a server keying all its ciphers from one secret would do
+	shared := in.Len() > 6 && in.At(6).AsBool()
+	sharedKey, sharedIV := exact(key), exact(iv)
 	encI := make([]xcipher.BlockCryptor, n)
 	decI := make([]xcipher.BlockCryptor, n)
 	cp := make([]bool, n)
@@ -433,7 +439,11 @@ func runFamily(in Sx) Sx {
 				kl = len(key)
 			}
 			p := guard(20*time.Second, func() {
-				c := xcipher.NewCrypt(name, exact(key[:kl]), exact(iv))
+				kbuf, vbuf := exact(key[:kl]), exact(iv)
+				if shared {
+					kbuf, vbuf = sharedKey[:kl:kl], sharedIV
+				}
+				c := xcipher.NewCrypt(name, kbuf, vbuf)
 				if pass == 0 {
 					encI[i] = c
 				} else {
@@ -941,6 +951,7 @@ func gen(a Args, out *Out) {
 	frameCases(a, out, rng.Fork())
 	structuredKeyCases(a, out, rng.Fork())
 	finishSweeps()
+	ownerCases(a, out, rng.Fork())
 	duplexCases(a, out, rng.Fork())
 	parallelCases(a, out, rng.Fork())
 }
@@ -955,6 +966,9 @@ func familyCases(a Args, out *Out, rng *Rng) {
 	}
 	emit := func(key, iv []byte, entries []Sx, what string) {
 		in := List(Int(7), Bytes(key), Bytes(iv), ListOf(entries), Uint(uint64(rng.Intn(1<<16))), Int(int64(rng.Range(17, 40))))
+		if strings.HasSuffix(what, "/shared-buffer") {
+			in = List(Int(7), Bytes(key), Bytes(iv), ListOf(entries), in.At(4), in.At(5), Int(1))
+		}
 		obs := run(in)
 		out.Case("family", true, in, obs)
 		out.Count("family:" + what)
@@ -1012,6 +1026,10 @@ func familyCases(a Args, out *Out, rng *Rng) {
 		emit(key, iv, whole, "all-names-in-order")
 		emit(rng.Bytes(32), iv, rev, "all-names-reversed")
 		emit(rng.Bytes(32), iv, shuffle(whole), "all-names-shuffled")
+		emit(rng.Bytes(32), iv, whole, "all-names-in-order/shared-buffer")
+		emit(rng.Bytes(32), iv, rev, "all-names-reversed/shared-buffer")
+		emit(rng.Bytes(32), iv, shuffle(whole), "all-names-shuffled/shared-buffer")
+		emit(rng.Bytes(32), iv, shuffle(prefixes), "names-x-prefix-lengths-shuffled/shared-buffer")
 		emit(rng.Bytes(32), iv, shuffle(prefixes), "names-x-prefix-lengths-shuffled")
 		emit(rng.Bytes(32), iv, shuffle(prefixes), "names-x-prefix-lengths-shuffled")
 		// two names at a time (every ordered pair over the rounds)
